@@ -37,6 +37,8 @@ type c19Ctx struct {
 	kmu    sync.Mutex
 	evals  atomic.Int64
 	pend   sync.WaitGroup // Register result channels being awaited
+	ncMu   sync.Mutex
+	ncs    []net.Conn // connections handed to Register(conn), closed by the harness at the end of the life
 	hung   atomic.Int64
 	okRegs atomic.Int64
 }
@@ -234,6 +236,9 @@ func (x *c19Ctx) randomCall(r *vlib.Rand, e gnet.Engine) {
 			how = "closed-meanwhile"
 			go func() { _ = nc.Close() }()
 		}
+		x.ncMu.Lock()
+		x.ncs = append(x.ncs, nc)
+		x.ncMu.Unlock()
 		ch, err := e.Register(gnet.NewNetConnContext(context.Background(), nc))
 		x.expectErr("Register(conn)", before, x.state.Load(), err)
 		if err == nil {
@@ -498,7 +503,14 @@ func runC19Case(c cfg, seed uint64, stopKind string, addFaults bool, keys map[st
 			continue
 		}
 		res.Violate(fmt.Sprintf("C07 leak class=%s site=%s registered=%v", fi.Class, fi.Site, fi.Registered), fmt.Sprintf("config %s: descriptor %d (%s, created in %s) is still open after the engine shut down (control-API history, Stop kind %s)", c, fi.FD, fi.Class, fi.Site, stopKind), map[string]any{"config": c.String()})
+		_ = unix.Close(fi.FD) // reported; reclaimed so that a long run of engine lives does not exhaust the descriptor table
 	}
+	x.ncMu.Lock()
+	for _, nc := range x.ncs {
+		_ = nc.Close() // the harness's own ends of connections handed to Register (no-op for those the engine took over)
+	}
+	x.ncs = nil
+	x.ncMu.Unlock()
 	x.key("stop|" + stopKind)
 	res.Obs("c19_register_results_with_conn", x.okRegs.Load())
 	res.Obs("c19_register_hangs", x.hung.Load())
